@@ -91,7 +91,7 @@ def moved_lookup_loose(exceptions, key, used):
     return None
 
 
-def _report(ctx, rule, keyed, exceptions, violation_text):
+def _report(ctx, rule, keyed, exceptions, violation_text, seen=None):
     """keyed: [(key, site)] -> ok / exception / violation; exact (or prefix-pattern) exceptions first, then exceptions whose site moved within the crate"""
     used = set()
     pending = []
@@ -124,6 +124,14 @@ def _report(ctx, rule, keyed, exceptions, violation_text):
     # candidates: exceptions of this rule that are unused although their function is covered by this very report (it has other sites here), or whose
     # function no longer exists at all; exceptions for functions outside this report's scope (another property's part of a shared table) are not stale
     covered = {key.split("|")[1] for key, _ in keyed if key.count("|") >= 2}
+    if seen:
+        # every function this report is responsible for (reachable in this property's scope), also those whose sites have all moved away
+        for fid in seen:
+            f_ = ctx.prog.fns.get(fid)
+            if f_ is not None:
+                covered.add(f_.path)
+                covered.add(ctx.prog.display(f_))
+                covered.add(ctx.prog.root_of(f_).path)
     existing = {f.path for f in ctx.prog.fns.values()} | {ctx.prog.display(f) for f in ctx.prog.fns.values()}
     stale = [k for k in exceptions if k.startswith(rule + "|") and k not in used and not k.endswith("*") and k.count("|") >= 2
              and (k.split("|")[1] in covered or k.split("|")[1] not in existing)]
@@ -146,7 +154,7 @@ def report_sites(ctx, rule, sites, exceptions, seen, note_prefix=""):
     def text(s):
         chain = ctx.cg.pretty_chain(seen, s["fn"].id) if s["fn"].id in seen else ""
         return "%sunguarded may-panic site `%s` on %s; reached via %s" % (note_prefix, s["construct"], s["origin"][:120], chain)
-    used = _report(ctx, rule, [(sanitize(s["key"]), s) for s in sites], exceptions, text)
+    used = _report(ctx, rule, [(sanitize(s["key"]), s) for s in sites], exceptions, text, seen)
     stale = [k for k in exceptions if k not in used and k.startswith(rule + "|")]
     if stale:
         ctx.note("stale exception entries (site no longer present): %s" % stale[:10])
@@ -156,7 +164,7 @@ def report_sites(ctx, rule, sites, exceptions, seen, note_prefix=""):
 def report_divs(ctx, rule, sites, exceptions, seen):
     return _report(ctx, rule, [(s["key"], s) for s in sites], exceptions,
                    lambda s: "float division whose divisor `%s` is not shown non-zero by a constant, a clamp or a dominating comparison: "
-                             "inf/NaN result when it is zero" % s["desc"][:120])
+                             "inf/NaN result when it is zero" % s["desc"][:120], seen)
 
 
 def report_loops(ctx, rule, prog, seen, include, loop_exceptions, custom_iter_ok):
